@@ -353,6 +353,37 @@ def holdsNamesOverride (Em Eb : Attr → Val) (envM envB : Env) (obs : NameTable
     | none => expectedName Eb envB e.1 == some e.2) &&
   namesPresent Em envM (obs.map (·.1)) && namesPresent Eb envB (obs.map (·.1))
 
+/-! ### the name-table merge of InfoCompiler on arbitrary record lists -/
+
+/-- the string of the LAST record under key `k` -/
+def lastName (k : NameKey) (t : NameTable) : Option Str := getName k t.reverse
+
+/-- the distinct keys of a list, each at the place of its first occurrence -/
+def firstKeys : List NameKey → List NameKey
+  | [] => []
+  | k :: ks => k :: (firstKeys ks).filter (fun x => decide (x ≠ k))
+
+/-- what `InfoCompiler.setupTable_name` must do with the records `orig` of the variable font and the records `temp` of
+    the temporary compile (no reference to how the result is computed):
+    (1) no key (nameID, platformID, encodingID, languageID) occurs twice;
+    (2) every record of the temporary compile is present — under its key the result holds the string of the last
+        temporary record with that key;
+    (3) every record of the original font whose key the temporary compile did not produce is kept — under its key the
+        result holds the string of the last original record with that key;
+    (4) nothing else is present;
+    (5) order: the keys of the result are the distinct keys of `orig` followed by `temp`, each at its first occurrence
+        (an overridden record keeps its place, new records are appended in the order of the temporary compile). -/
+def holdsNamesMerge (orig temp out : NameTable) : Bool :=
+  (out.map (·.1)).Nodup &&
+  temp.all (fun e => match lastName e.1 temp with
+    | some v => out.contains (e.1, v)
+    | none => false) &&
+  orig.all (fun e => (temp.map (·.1)).contains e.1 || (match lastName e.1 orig with
+    | some v => out.contains (e.1, v)
+    | none => false)) &&
+  out.all (fun e => (orig.map (·.1)).contains e.1 || (temp.map (·.1)).contains e.1) &&
+  out.map (·.1) == firstKeys (orig.map (·.1) ++ temp.map (·.1))
+
 /-- derived fields: documented value of each field that is not a row -/
 def holdsDerivedCore (E : Attr → Val) (info : Info) (env : Env) (ctx : Ctx) (obs : Field → FVal) : Bool :=
   let fr := fontRevision (E .versionMajor).q (E .versionMinor).q
